@@ -250,9 +250,76 @@ func runTTLInBubble(cs *Case) (w *World) {
 		w.fail(v)
 		return w
 	}
+	if v := w.restoredExpiry(); v != nil {
+		w.fail(v)
+		return w
+	}
 	w.stats.EndState = w.model.stateHash()
 	w.stats.Nontrivial = tt.passes > 0 && w.stats.Commits > 0
 	return w
+}
+
+// restoredExpiry checks that deadlines not only survive snapshot/restore but are acted on:
+// up to three live rows get a short time-to-live on the primary, the primary is snapshotted
+// at once and restored into a fresh collection that runs its own cleanup on the fake clock
+// and never sees a local time-to-live write; after a few intervals exactly the rows whose
+// deadline passed must be gone from it.
+func (w *World) restoredExpiry() *Violation {
+	tt := w.ttl
+	live := w.model.Live()
+	if len(live) == 0 {
+		return nil
+	}
+	short := map[uint32]bool{}
+	for i, off := range live {
+		if i >= 3 {
+			break
+		}
+		off := off
+		short[off] = true
+		if err := w.primary.QueryAt(off, func(r column.Row) error {
+			r.SetTTL(tt.interval / 2)
+			return nil
+		}); err != nil {
+			return violation("query-result", "%v", err)
+		}
+	}
+	f := NewSimFile()
+	if err := w.primary.Snapshot(f); err != nil {
+		return violation("snapshot-error", "%v", err)
+	}
+	fresh := column.NewCollection(column.Options{Capacity: w.cs.Cfg.Capacity, Vacuum: tt.interval})
+	w.colls = append(w.colls, fresh)
+	for _, col := range w.model.Cols {
+		if col.Name != "expire" {
+			if err := fresh.CreateColumn(col.Name, makeColumn(col)); err != nil {
+				panic(err)
+			}
+		}
+	}
+	if err := fresh.Restore(NewSimReader(f.Data, nil, 0)); err != nil {
+		return violation("restore-error", "%v", err)
+	}
+	time.Sleep(4*tt.interval + tt.interval/2)
+	synctest.Wait()
+	now := time.Now()
+	got := map[uint32]bool{}
+	for _, off := range liveOffsets(fresh) {
+		got[off] = true
+	}
+	for _, off := range live {
+		d, has := w.model.Get(off, "expire")
+		overdue := short[off] || (has && d.U != 0 && time.Unix(0, int64(d.U)).Before(now.Add(-3*tt.interval)))
+		future := !short[off] && (!has || d.U == 0 || time.Unix(0, int64(d.U)).After(now))
+		switch {
+		case overdue && got[off]:
+			return violation("ttl/restored-not-expired", "row %d of a restored collection (cleanup interval %v, no local time-to-live write) is still live %v after its restored deadline passed", off, tt.interval, 4*tt.interval)
+		case future && !got[off]:
+			return violation("ttl/restored-removed-early", "row %d of a restored collection was removed although it has no deadline in the past", off)
+		}
+	}
+	w.stats.probe("restored-collection-expired-its-rows")
+	return nil
 }
 
 // advanceClock is the clock pseudo-thread's step: a seeded jump placed relative to the
